@@ -18,6 +18,7 @@ mod upgrade_clap;
 mod validate;
 mod selfenc;
 mod clientread;
+mod replication;
 
 use std::path::PathBuf;
 
@@ -43,6 +44,7 @@ fn main() {
         ("Validate", validate::generate),
         ("SelfEnc", selfenc::generate),
         ("ClientRead", clientread::generate),
+        ("Replication", replication::generate),
     ];
     let mut failed = false;
     for (name, g) in gens {
